@@ -42,6 +42,16 @@ def boxed_future_info(fn):
     return {"send": SEND in d["autos"], "projections": d["projections"]}
 
 
+def async_trait_attr_text(crate, exp):
+    """Source text of the `#[async_trait…]` attribute written below the entrait attribute (or '')."""
+    import re
+    sp = exp.call_site
+    lines = crate.source(sp["file"])
+    text = lines[sp["hi_line"] - 1][sp["hi_col"]:] + "\n" + "\n".join(lines[sp["hi_line"]:sp["hi_line"] + 8])
+    m = re.search(r"#\[\s*(?:::)?(?:async_trait::)?async_trait\s*(\([^\]]*\))?\s*\]", text)
+    return m.group(0) if m else ""
+
+
 def run(tier):
     rep = Report("C12", tier, "translation_validation")
     configs = ["plain", "unimock_test"] if tier == "quick" else ["plain", "test", "unimock", "unimock_test"]
@@ -99,8 +109,12 @@ def run(tier):
                                 programs += 1
                                 rep.count("async_methods_checked")
                                 rep.sample({"method": tm["path"], "config": cfg, "boxed": bi})
-                                if not bi["send"]:
-                                    rep.add("R-ASYNC-TRAIT", "%s :: %s send" % (key0, name), "async_trait future lost its Send bound", where=exp.label())
+                                # async_trait's own `?Send` argument (written by the user below entrait) decides Send-ness here
+                                at_send = "?Send" not in async_trait_attr_text(crate, exp)
+                                if bi["send"] != at_send:
+                                    rep.add("R-ASYNC-TRAIT", "%s :: %s send" % (key0, name),
+                                            "async_trait future is %sSend but the async_trait attribute %s `?Send`"
+                                            % ("" if bi["send"] else "not ", "has no" if at_send else "carries"), where=exp.label())
                                 if bim is not None and bi["projections"] != bim["projections"]:
                                     rep.add("R-ASYNC-TRAIT", "%s :: %s output" % (key0, name), "boxed future Output differs between trait and impl: %s vs %s"
                                             % (bi["projections"], bim["projections"]), where=exp.label())
